@@ -263,7 +263,8 @@ func remoteSeeds(full bool) []string {
 	paths := []string{"/repo.git", "/foo.tgz", "/foo.tar.gz", "/foo", "/a%2Fb.tgz", "/a b.tgz", "/team/%2Fmirror/repo.git", "/%2F%2Fx.tgz", "/a%2F/b.tgz"}
 	subs := []string{"", "//sub", "//sub/dir", "//a b", "//a%20b", "//é", "//a@b", "//sub#f", "//.", "//..", "//a//b", "//", "//a/../b", "//a?b", "//%2e%2e/%2e%2e/x", "//a%2Fb", "//%2e"}
 	queries := []string{"", "?ref=main", "?ref=a&ref=b", "?depth=1", "?archive=tgz", "?archive=tar.gz", "?archive=zip", "?checksum=x", "?b=1&archive=tgz&a=2", "?", "?ref=a%20b", "?ref=%zz", "?archive=tgz&archive=tgz",
-		"?ref=main&depth=%zz", "?checksum=x;y=1", "?archive=tar%2Egz", "?%61rchive=tar.gz", "?xarchive=tar.gz&archive=tar.gz", "?ref=v1&ref=v2%zz", "?archive=tar.gz&x=archive%3Dtar.gz"}
+		"?ref=main&depth=%zz", "?checksum=x;y=1", "?archive=tar%2Egz", "?%61rchive=tar.gz", "?xarchive=tar.gz&archive=tar.gz", "?ref=v1&ref=v2%zz", "?archive=tar.gz&x=archive%3Dtar.gz",
+		"?ref=main&depth=1", "?depth=1&ref=main", "?sshkey=k&ref=main&depth=1"}
 	frags := []string{"", "#frag"}
 	if !full {
 		types = []string{"", "git::", "GIT::", "http::"}
@@ -272,7 +273,8 @@ func remoteSeeds(full bool) []string {
 		hosts = []string{"example.com", "EXAMPLE.com:8080"}
 		subs = []string{"", "//sub", "//sub/dir", "//a b", "//é", "//a@b", "//..", "//a//b", "//", "//%2e%2e/%2e%2e/x", "//a%2Fb"}
 		queries = []string{"", "?ref=main", "?ref=a&ref=b", "?depth=1", "?archive=tgz", "?archive=tar.gz", "?checksum=x", "?b=1&archive=tgz&a=2", "?",
-			"?ref=main&depth=%zz", "?checksum=x;y=1", "?archive=tar%2Egz", "?%61rchive=tar.gz", "?xarchive=tar.gz&archive=tar.gz"}
+			"?ref=main&depth=%zz", "?checksum=x;y=1", "?archive=tar%2Egz", "?%61rchive=tar.gz", "?xarchive=tar.gz&archive=tar.gz",
+			"?ref=main&depth=1", "?depth=1&ref=main"}
 	}
 	var out []string
 	for _, t := range types {
@@ -721,6 +723,48 @@ func RunC07(tier string) int {
 		}
 	}
 	rep.States += len(seeds)
+	// Verdict stability. The iteration order of Go maps (url.Values) is chosen by
+	// the runtime and is not a seam the harness owns, so it cannot be enumerated:
+	// every seed with a multi-argument query is parsed again repeatCount times and
+	// each verdict must equal the first (auxiliary sampling, recorded as such).
+	{
+		const repeatCount = 24
+		var multi []int
+		for i, s := range seeds {
+			if strings.Contains(s, "&") {
+				multi = append(multi, i)
+			}
+		}
+		unstable := make([]string, len(multi))
+		parMap(len(multi), func(k int) {
+			s := seeds[multi[k]]
+			verdict := func() (v string) {
+				guard(func() {
+					x, err := sourceaddrs.ParseSource(s)
+					if err != nil {
+						v = "rejected"
+					} else {
+						v = "accepted as " + x.String()
+					}
+				})
+				return
+			}
+			first := verdict()
+			for n := 0; n < repeatCount; n++ {
+				if again := verdict(); again != first {
+					unstable[k] = fmt.Sprintf("ParseSource(%q) is %s on one call and %s on another", s, first, again)
+					return
+				}
+			}
+		})
+		for k, u := range unstable {
+			rep.Evaluations += repeatCount
+			if u != "" {
+				rep.Violation("sourceaddrs.ParseSource/verdict-differs-between-calls", u, "addrpolicy", map[string]any{"parser": "ParseSource", "s": seeds[multi[k]], "repeat": 64})
+			}
+		}
+		rep.Extra["verdict_stability"] = map[string]any{"seeds_with_multi_argument_query": len(multi), "repeats_each": repeatCount}
+	}
 	// constructor product
 	types := []string{"git", "https", "http", "GIT", "hg", "", "ssh"}
 	var urls []*url.URL
@@ -1302,9 +1346,21 @@ func addrPolicyHandler(raw json.RawMessage) (any, error) {
 		Type   string   `json:"type"`
 		URL    *url.URL `json:"url"`
 		Sub    string   `json:"sub"`
+		Repeat int      `json:"repeat"`
 	}
 	if err := json.Unmarshal(raw, &arg); err != nil {
 		return nil, err
+	}
+	if arg.Repeat > 0 {
+		seen := map[string]int{}
+		for n := 0; n < arg.Repeat; n++ {
+			if x, err := sourceaddrs.ParseSource(arg.S); err != nil {
+				seen["rejected: "+err.Error()]++
+			} else {
+				seen["accepted as "+x.String()]++
+			}
+		}
+		return map[string]any{"verdicts_over_repeated_calls": seen, "stable": len(seen) == 1}, nil
 	}
 	var rs sourceaddrs.RemoteSource
 	var err error
